@@ -1,5 +1,302 @@
-"""Clients of the parallel executor compared with their sequential counterparts (filled in below)."""
+"""C13 clients: parallel DOE (ParallelDOE.tla, forced completion orders on the process back-end) and
+parallel chain / linearization / finite differences compared with their sequential counterparts."""
+from __future__ import annotations
+
+import contextlib
+import io
+import multiprocessing as mp
+import threading
+import time
+
+import numpy as np
+
+from ..core import MachineryError
+from ..tlaval import seq
+
+
+def doe_cfg(n, points, nw, *, cases=False):
+    s = f"CONSTANTS N = {n}\n Points = {{{', '.join(map(str, points))}}}\n NWorkers = {nw}\n"
+    s += "SPECIFICATION Spec\nINVARIANT SameAsSequential\nINVARIANT OrderFixed\n"
+    if cases:
+        s += "INVARIANT Cases\n"
+    else:
+        s += "VIEW View\nPROPERTY Live\n"
+    return s
+
+
+PT = {1: (0.0, 0.0), 2: (1.0, 0.5), 3: (-1.0, 0.25)}
+
+
+def f_val(p):
+    x = PT[p]
+    return (x[0] - 0.5) ** 2 + (x[1] + 0.25) ** 2
+
+
+def make_problem(fail_pts=()):
+    from gemseo.algos.design_space import DesignSpace
+    from gemseo.algos.optimization_problem import OptimizationProblem
+    from gemseo.core.mdo_functions.mdo_function import MDOFunction
+
+    ds = DesignSpace()
+    ds.add_variable("x", 2, lower_bound=-2.0, upper_bound=2.0, value=np.array([1.0, 1.0]))
+    problem = OptimizationProblem(ds)
+    inv = {v: k for k, v in PT.items()}
+
+    def f(x):
+        p = inv[(float(x[0]), float(x[1]))]
+        if p in fail_pts:
+            raise ValueError(f"boom {p}")
+        return (x[0] - 0.5) ** 2 + (x[1] + 0.25) ** 2
+
+    problem.objective = MDOFunction(f, "f", jac=lambda x: np.array([2 * (x[0] - 0.5), 2 * (x[1] + 0.25)]))
+    problem.add_constraint(
+        MDOFunction(lambda x: np.array([x[0] + x[1] - 0.125]), "c", jac=lambda x: np.array([[1.0, 1.0]])),
+        constraint_type="ineq")
+    return problem
+
+
+def dump_db(problem):
+    out = []
+    for k, d in problem.database.items():
+        out.append((tuple(float(v) for v in k.wrapped_array),
+                    {n: np.round(np.ravel(v), 12).tolist() for n, v in sorted(d.items())}))
+    return out
+
+
+def run_doe_forced(samples, fail_pts, order, nw, step_timeout=10.0):
+    """samples: list of point ids (1-based positions in `order`)."""
+    from gemseo.algos.doe.factory import DOELibraryFactory
+
+    ctx = mp.get_context("fork")
+    occ_of = {}
+    seen = {}
+    for i, p in enumerate(samples, 1):
+        occ_of[i] = (p, seen.get(p, 0))
+        seen[p] = seen.get(p, 0) + 1
+    keys = list(occ_of.values())
+    gates = {k: ctx.Event() for k in keys}
+    started = {k: ctx.Event() for k in keys}
+    finished = {k: ctx.Event() for k in keys}
+    tickets = {p: ctx.Value("i", 0) for p in set(samples)}
+    problem = make_problem(fail_pts)
+    inv = {v: k for k, v in PT.items()}
+    arr = np.array([PT[p] for p in samples])
+    problems = []
+
+    def controller():
+        for i in order:
+            k = occ_of[i]
+            if not started[k].wait(step_timeout):
+                problems.append(f"task {i} (point {k[0]}) never started although the specification allows it to complete now")
+                break
+            gates[k].set()
+            finished[k].wait(step_timeout)
+            time.sleep(0.01)
+        for g in gates.values():
+            g.set()
+
+    th = threading.Thread(target=controller, daemon=True)
+    res = {}
+    with contextlib.redirect_stderr(io.StringIO()):
+        th.start()
+        try:
+            lib = DOELibraryFactory().create("CustomDOE")
+            inner = lib._worker
+
+            # test double at task level (one call per task, whatever the sub-process database memoizes):
+            # report the start, wait for the gate, run the real worker, report the end
+            def gated_worker(x):
+                p = inv[(float(x[0]), float(x[1]))]
+                with tickets[p].get_lock():
+                    occ = tickets[p].value
+                    tickets[p].value += 1
+                started[(p, occ)].set()
+                gates[(p, occ)].wait(30)
+                try:
+                    return inner(x)
+                finally:
+                    finished[(p, occ)].set()
+
+            lib._worker = gated_worker
+            lib.execute(problem, samples=arr, n_processes=nw, eval_jac=True)
+        except BaseException as e:  # noqa: BLE001
+            res["error"] = e
+        for g in gates.values():
+            g.set()
+        th.join(30)
+    return problem, res, problems
+
+
+def run_doe_seq(samples, fail_pts):
+    from gemseo.algos.doe.factory import DOELibraryFactory
+
+    problem = make_problem(fail_pts=fail_pts)
+    arr = np.array([PT[p] for p in samples])
+    with contextlib.redirect_stderr(io.StringIO()):
+        DOELibraryFactory().execute(problem, algo_name="CustomDOE", samples=arr, eval_jac=True)
+    return problem
 
 
 def run(ck, rng):
-    return
+    # ---- ParallelDOE: model checking + forced completion orders on the real parallel DOE
+    n = 4 if ck.thorough else 3
+    pts = [1, 2, 3]
+    ck.tlc("ParallelDOE", doe_cfg(n, pts, 2), workers=4, deadlock=False,
+           require_actions=("PreSeed", "Start", "Complete", "RemoveEmpty"))
+    if ck.thorough:
+        ck.tlc("ParallelDOE", doe_cfg(4, pts, 3), workers=8, deadlock=False)
+    r = ck.tlc("ParallelDOE", doe_cfg(3, pts, 2, cases=True), workers=1, deadlock=False, count=False, coverage=False)
+    cases = {}
+    for v in r.printed():
+        if isinstance(v, tuple) and v and v[0] == "DOE":
+            _, samples, fail_pts, order, expect = v
+            cases[(tuple(seq(samples)), fail_pts, tuple(order))] = tuple(seq(expect))
+    if not cases:
+        raise MachineryError("ParallelDOE printed no case")
+    items = sorted(cases.items(), key=lambda kv: (kv[0][0], sorted(kv[0][1]), kv[0][2]))
+    # non-trivial cases: a completion order different from the identity, or a failing/duplicated sample
+    nontrivial = [it for it in items if it[0][2] != tuple(sorted(it[0][2])) or it[0][1] or len(set(it[0][0])) < len(it[0][0])]
+    k = 60 if ck.thorough else 14
+
+    def naive(it):
+        (samples, fail_pts, order), expect = it
+        out = []
+        for i in order:
+            p = samples[i - 1]
+            if p not in fail_pts and p not in out:
+                out.append(p)
+        return tuple(out)
+
+    # order-sensitive: storing in completion order would give another database than the sequential one
+    sensitive = [it for it in nontrivial if naive(it) != it[1]]
+    ck.extra["parallel_doe_order_sensitive_cases_in_model"] = len(sensitive)
+    chosen = rng.sample(sensitive, min(k - k // 4, len(sensitive)))
+    rest = [it for it in nontrivial if it not in chosen]
+    chosen += rng.sample(rest, min(k // 4, len(rest)))
+    ck.extra["parallel_doe_cases_in_model"] = len(items)
+    ck.extra["parallel_doe_cases_replayed"] = len(chosen)
+    seq_cache = {}
+    for (samples, fail_pts, order), expect in chosen:
+        case = {"samples": list(samples), "fail_points": sorted(fail_pts), "completion_order": list(order),
+                "expected_keys": list(expect)}
+        ck.sample(case, limit=8)
+        sig = {"what": "parallel_doe"}
+        problem, res, problems = run_doe_forced(list(samples), set(fail_pts), list(order), 2)
+        if "error" in res:
+            ck.violation("DoeTerminates", dict(sig, exception=type(res["error"]).__name__), dict(case, error=repr(res["error"])))
+            continue
+        if problems:
+            ck.violation("ScheduleAdmissible", sig, dict(case, problems=problems))
+            continue
+        got = dump_db(problem)
+        want_keys = [PT[p] for p in expect]
+        if [g[0] for g in got] != want_keys:
+            ck.violation("SameAsSequential", sig, dict(case, impl_keys=[g[0] for g in got], spec_keys=want_keys))
+            continue
+        bad = [g for g, p in zip(got, expect) if abs(g[1]["f"][0] - f_val(p)) > 1e-12 or "@f" not in g[1] or "c" not in g[1]]
+        if bad:
+            ck.violation("SameAsSequential", dict(sig, part="values"), dict(case, impl=bad))
+            continue
+        key = (samples, fail_pts)
+        if key not in seq_cache:
+            seq_cache[key] = dump_db(run_doe_seq(list(samples), set(fail_pts)))
+        if got != seq_cache[key]:
+            ck.violation("SameAsSequential", dict(sig, part="vs_sequential_run"), dict(case, parallel=got, sequential=seq_cache[key]))
+            continue
+        ck.traces += 1
+    # ---- parallel chain / linearization / finite differences vs sequential
+    _chains(ck, rng)
+    _fd(ck, rng)
+
+
+def _disc(name, ins, outs, coef):
+    from gemseo.core.discipline import Discipline
+
+    class L(Discipline):
+        def __init__(self):
+            super().__init__(name=name)
+            self.io.input_grammar.update_from_names(ins)
+            self.io.output_grammar.update_from_names(outs)
+            self.io.input_grammar.defaults.update({i: np.array([1.0, 2.0]) for i in ins})
+
+        def _run(self, input_data):
+            s = sum(input_data[i] for i in ins)
+            return {o: coef * (k + 1) * s + k for k, o in enumerate(outs)}
+
+        def _compute_jacobian(self, input_names=(), output_names=()):
+            self.jac = {o: {i: coef * (k + 1) * np.eye(2) for i in ins} for k, o in enumerate(outs)}
+
+    return L()
+
+
+def _chains(ck, rng):
+    from gemseo.core.chains.parallel_chain import MDOParallelChain
+
+    n = 0
+    for use_threading in (True, False):
+        for trial in range(3 if ck.thorough else 1):
+            specs = [("A", ["x"], ["ya", "za"], 2.0), ("B", ["x", "u"], ["yb"], -3.0), ("C", ["u"], ["yc"], 0.5),
+                     ("D", ["x"], ["yd"], 4.0)]
+            rng.shuffle(specs)
+            data = {"x": np.array([rng.randint(-3, 3), 1.0]), "u": np.array([0.5, rng.randint(-2, 2)])}
+            case = {"client": "MDOParallelChain", "threads": use_threading, "order": [s[0] for s in specs]}
+            sig = {"what": "parallel_chain", "threads": use_threading}
+            par = MDOParallelChain([_disc(*s) for s in specs], use_threading=use_threading, n_processes=3)
+            ok, out = ck.guard("ChainEquivalent", sig, par.execute, data)
+            if not ok:
+                continue
+            want = {}
+            wjac = {}
+            for s in specs:
+                d = _disc(*s)
+                want.update({k: v for k, v in d.execute(data).items() if k in s[2]})
+                j = d.linearize(data, compute_all_jacobians=True)
+                wjac.update(j)
+            bad = [k for k in want if not np.array_equal(np.asarray(out[k]), np.asarray(want[k]))]
+            if bad:
+                ck.violation("ChainEquivalent", sig, dict(case, differing_outputs=bad))
+                continue
+            par.add_differentiated_inputs(["x", "u"])
+            par.add_differentiated_outputs(list(want))
+            ok, jac = ck.guard("ChainEquivalent", dict(sig, part="linearize"), par.linearize, data)
+            if not ok:
+                continue
+            badj = []
+            for o in want:
+                for i in ("x", "u"):
+                    w = wjac[o].get(i)
+                    g = jac.get(o, {}).get(i)
+                    if w is None:
+                        if g is not None and np.any(np.asarray(g.toarray() if hasattr(g, "toarray") else g) != 0):
+                            badj.append((o, i))
+                        continue
+                    if g is None or not np.array_equal(np.asarray(g.toarray() if hasattr(g, "toarray") else g), w):
+                        badj.append((o, i))
+            if badj:
+                ck.violation("ChainEquivalent", dict(sig, part="jacobian"), dict(case, differing_blocks=badj))
+                continue
+            n += 1
+            ck.traces += 1
+    ck.extra["parallel_chain_runs"] = n
+
+
+def _fd(ck, rng):
+    from gemseo.utils.derivatives.finite_differences import FirstOrderFD
+
+    def f(x):
+        return np.array([x[0] ** 2 + 3 * x[1], x[0] * x[1] - x[2], 2.0 * x[2] ** 2])
+
+    n = 0
+    for trial in range(4 if ck.thorough else 2):
+        x = np.array([rng.randint(-4, 4) / 2, rng.randint(-4, 4) / 2, rng.randint(-4, 4) / 2])
+        serial = FirstOrderFD(f, step=2.0 ** -8).f_gradient(x)
+        sig = {"what": "parallel_fd", "threads": False}
+        ok, par = ck.guard("FDEquivalent", sig, lambda: FirstOrderFD(f, step=2.0 ** -8, parallel=True, n_processes=3).f_gradient(x))
+        if not ok:
+            continue
+        if not np.array_equal(np.asarray(par), np.asarray(serial)):
+            ck.violation("FDEquivalent", sig, {"x": x.tolist(), "serial": np.asarray(serial).tolist(), "parallel": np.asarray(par).tolist()})
+            continue
+        n += 1
+        ck.traces += 1
+    ck.extra["parallel_fd_runs"] = n
